@@ -36,8 +36,9 @@ def run(tier, seed, ck=None):
     from props import C12
     C12.run(tier, seed, ck, which=['Invert', 'Multiply', 'CMove', 'Sgn0', 'Bytes', 'IsZero', 'One', 'Set'])   # contracts of the field.Element methods used as summaries are re-proved on the current tree
 
-    def battery(key, why):
-        path = ck.save_replay({'property': 'C04', 'cases': [{'kind': 'el-battery', 'op': 'encode', 'n': ck.seed}]})
+    def battery(key, why, scalings=()):
+        # scalings: projective Z values taken from word-level models of the failing paths
+        path = ck.save_replay({'property': 'C04', 'cases': [{'kind': 'el-battery', 'op': 'encode', 'n': ck.seed, 'a': ','.join('%064x' % v for v in scalings)}]})
         ok, out = core.go_test(path)
         if not ok and 'MISMATCH' in out:
             ck.violation(key, '%s: %s' % (why, [l.strip() for l in out.splitlines() if 'MISMATCH' in l][:1]), path)
@@ -50,6 +51,7 @@ def run(tier, seed, ck=None):
         rets = [p for p in r.paths if p['end'] == 'return']
         oth = [p for p in r.paths if p['end'] != 'return']
         failed = False
+        scalings = []
         for p in oth:
             low = PolyLower(r)
             low.emit(p['pc'])
@@ -97,10 +99,16 @@ def run(tier, seed, ck=None):
                 continue
             # a path that returns the full form must not be reachable for the identity and vice versa
             ans = ck.prove_batch(pre, goals, timeout=60)
-            failed |= any(a != 'unsat' for a in ans)
+            if any(a != 'unsat' for a in ans):
+                failed = True
+                from vf.dag import limb_witnesses
+                for w in limb_witnesses(r, p['pc'], ['pz']):
+                    zv = unlimbs(w['pz'])
+                    if 0 < zv < P:
+                        scalings.append(zv * pow(R, -1, P) % P)
             ck.prove(pt + '.reach', 'path reachable', pre, expect='sat', timeout=30)
         if failed:
-            battery('encode:' + nm, '%s is not the canonical SEC1 form / does not round-trip' % nm)
+            battery('encode:' + nm, '%s is not the canonical SEC1 form / does not round-trip' % nm, scalings[:12])
     # Hex = hex(Encode)
     r = R_['hex']
     rets = [p for p in r.paths if p['end'] == 'return']
